@@ -41,6 +41,7 @@ struct Elem
     if(vl_lookup(this, 0, 0) < 0) id = -1; else { id = g_next_id++; vl_note('n', id, this); }
   }
   Elem(Proto, int k, int v) : id(-2), k(k), v(v) {}                       // the caller's argument object
+  explicit Elem(int v) : id(g_next_id++), k(0), v(v) { vl_note('n', id, this); }   // in-place construction from an argument
   Elem(const Elem& o) : id(g_next_id++), k(o.k), v(o.v) { vl_note('c', id, this); }
   Elem(Elem&& o) : id(g_next_id++), k(o.k), v(o.v) { vl_note('m', id, this); }
   Elem& operator=(const Elem& o) { k = o.k; v = o.v; if(id != -2) vl_note('=', id, this); return *this; }
@@ -68,6 +69,15 @@ struct ElemNC
   ElemNC& operator=(const ElemNC&) = delete;
   ElemNC& operator=(ElemNC&&) = delete;
 };
+
+// Normal build: the pool containers hold ElemNC.  Only when that does not compile (a pool container
+// copies or moves) the check rebuilds with -DVERIF_POOL_COPYABLE so that the copy shows up as an event
+// of a concrete history.
+#ifdef VERIF_POOL_COPYABLE
+typedef Elem PoolElem;
+#else
+typedef ElemNC PoolElem;
+#endif
 
 // ---- per-kind adapters -------------------------------------------------------------------------
 // C container, T element type; insert modes: 0 append, 1 prepend, 2 at position
@@ -177,7 +187,7 @@ struct TrHashSet
 
 struct TrPoolList
 {
-  typedef PoolList<ElemNC> C; typedef ElemNC T;
+  typedef PoolList<PoolElem> C; typedef PoolElem T;
   enum { has_swap = 1, has_assign = 0, has_find = 0, is_tree = 0, is_hash = 0 };
   static C* make(void* m, usize) { return new(m) C; }
   static long stride() { return sizeof(C::Item) + sizeof(T); }
@@ -194,7 +204,7 @@ struct TrPoolList
 
 struct TrPoolMap
 {
-  typedef PoolMap<int, ElemNC> C; typedef ElemNC T;
+  typedef PoolMap<int, PoolElem> C; typedef PoolElem T;
   enum { has_swap = 1, has_assign = 0, has_find = 1, is_tree = 0, is_hash = 1 };
   static C* make(void* m, usize cap) { return new(m) C(cap); }
   static long stride() { return sizeof(C::Item); }
